@@ -274,7 +274,9 @@ impl ShmReader {
             #[cfg(clock_bound_verif)]
             let snapshot = unsafe { crate::verif_shim::data_read(self.ceb_shm, snapshot) };
 
-            // Confirm no update occurred during the read
+            // Confirm no update occurred during the read. The Acquire load below only orders what
+            // follows it: the fence keeps the record read above from being satisfied after it.
+            atomic::fence(atomic::Ordering::Acquire);
             let second_gen = generation.load(atomic::Ordering::Acquire);
             if first_gen == second_gen {
                 self.snapshot_gen = first_gen;
